@@ -463,6 +463,63 @@ pub fn run_c15(out: &mut Out, tier: &str, seed: u64) {
         });
         out.case("expect", &["F6 witness: get(a) on {a:1,a:2} is the same before and after insert(b)"], if r == Ok(true) { "true" } else { "false" }, true);
     }
+    // values built by macros and conversions from members with repeated names are the map the same inserts build
+    // (the later value of a name replaces the earlier one), as with std maps and serde_json
+    {
+        use std::collections::BTreeMap;
+        let want = |pairs: &[(&str, i64)]| -> String {
+            let mut m: BTreeMap<String, i64> = BTreeMap::new();
+            for (k, v) in pairs {
+                m.insert(k.to_string(), *v);
+            }
+            sorted_dump(&sonic_rs::to_value(&m).unwrap())
+        };
+        let check = |out: &mut Out, how: &str, got: Result<Value, String>, pairs: &[(&str, i64)]| {
+            let verdict = match got {
+                Ok(v) if sorted_dump(&v) == want(pairs) => "true".to_string(),
+                Ok(v) => format!("{} instead of {}", sorted_dump(&v), want(pairs)),
+                Err(p) => format!("panic:{p}"),
+            };
+            out.case("expect", &["construction with repeated member names", how], &verdict, true);
+        };
+        let p1: [(&str, i64); 3] = [("a", 1), ("b", 2), ("a", 3)];
+        check(out, "json!", guarded(|| sonic_rs::json!({"a": 1, "b": 2, "a": 3})), &p1);
+        check(out, "object!", guarded(|| sonic_rs::object! {"a": 1, "b": 2, "a": 3}.into_value()), &p1);
+        let names = ["a", "b", "k\u{e9}", "", "a2"];
+        for _ in 0..(if tier == "thorough" { 3000 } else { 400 }) {
+            let n = rng.range(1, 7);
+            let pairs: Vec<(&str, i64)> = (0..n).map(|i| (*rng.pick(&names), i as i64 * 10 + rng.below(3) as i64)).collect();
+            let pv: Vec<(String, Value)> = pairs.iter().map(|(k, v)| (k.to_string(), Value::from(*v))).collect();
+            check(out, "Object::from_iter", guarded(|| pv.iter().map(|(k, v)| (k.as_str(), v)).collect::<sonic_rs::Object>().into_value()), &pairs);
+            check(out, "Value::from_iter", guarded(|| pv.iter().map(|(k, v)| (k.as_str(), v)).collect::<Value>()), &pairs);
+            check(out, "Object::extend", guarded(|| {
+                let mut o = sonic_rs::Object::new();
+                o.extend(pv.iter().map(|(k, v)| (k.as_str(), v)));
+                o.into_value()
+            }), &pairs);
+            check(out, "insert sequence", guarded(|| {
+                let mut o = sonic_rs::Object::new();
+                for (k, v) in &pv {
+                    o.insert(k, v.clone());
+                }
+                o.into_value()
+            }), &pairs);
+            // a Serialize implementation that emits the same name twice, converted by to_value
+            struct Rep<'a>(&'a [(&'a str, i64)]);
+            impl serde::Serialize for Rep<'_> {
+                fn serialize<S: serde::Serializer>(&self, s: S) -> Result<S::Ok, S::Error> {
+                    use serde::ser::SerializeMap;
+                    let mut m = s.serialize_map(Some(self.0.len()))?;
+                    for (k, v) in self.0 {
+                        m.serialize_entry(k, v)?;
+                    }
+                    m.end()
+                }
+            }
+            check(out, "to_value of a map with a repeated name", guarded(|| sonic_rs::to_value(&Rep(&pairs)).unwrap()), &pairs);
+            out.count("constructions");
+        }
+    }
     let n = if tier == "thorough" { 20000 } else { 2500 };
     let cfg = Cfg { max_depth: 2, max_width: 3, dup_free: true, long_strings: false, ..Cfg::default() };
     for _ in 0..n {
